@@ -11,6 +11,13 @@ use std::hash::{Hash, Hasher};
 
 pub use crate::setup::E18;
 
+/// set by the CLI: the thorough tier widens the relational explorations (more withdrawal orders, denser dry runs)
+pub static THOROUGH: std::sync::atomic::AtomicBool = std::sync::atomic::AtomicBool::new(false);
+
+pub fn thorough() -> bool {
+    THOROUGH.load(std::sync::atomic::Ordering::Relaxed)
+}
+
 #[derive(Clone, Debug)]
 pub struct Violation {
     pub property: String,
